@@ -176,10 +176,14 @@ enum Plan {
     Str(usize, usize),
     Block(usize),
     Err(i64, i64),
+    Bad,
     Raw,
 }
 
 fn plan_item(it: &[u8]) -> Plan {
+    if it == [128u8] {
+        return Plan::Bad;
+    }
     let s = std::str::from_utf8(it).unwrap_or("");
     if let Ok(v) = s.parse::<i64>() {
         if format!("{v}").as_bytes() == it {
@@ -188,8 +192,8 @@ fn plan_item(it: &[u8]) -> Plan {
     }
     if s.contains('.') {
         if let Ok(v) = s.parse::<f64>() {
-            let mut probe: Vec<u8> = Vec::new();
-            if v.format_response_data(&mut probe).is_ok() && probe == it {
+            // decided independently of the library's formatter (Rust's own shortest printing)
+            if format!("{v:?}").as_bytes() == it {
                 return Plan::Float(v);
             }
         }
@@ -207,11 +211,18 @@ fn plan_item(it: &[u8]) -> Plan {
             }
         }
     }
-    // an error/event queue item `code,"message[;extended]"`
+    // an error/event queue item `code,"message[;extended]"` (expected text assembled here, not by the library's formatter)
     if it.contains(&b',') {
-        for (code, ext) in [(-113i64, 0i64), (-171, 1), (-350, 0), (7, 2), (-222, 1)] {
-            let mut probe: Vec<u8> = Vec::new();
-            if mk_error(code, ext).format_response_data(&mut probe).is_ok() && probe == it {
+        for (code, ext) in [(-113i64, 0i64), (-171, 1), (-350, 0), (7, 2), (-222, 1), (0, 0)] {
+            let e = mk_error(code, ext);
+            let mut want = format!("{code},\"").into_bytes();
+            want.extend_from_slice(e.get_message());
+            if let Some(x) = e.get_extended() {
+                want.push(b';');
+                want.extend_from_slice(x);
+            }
+            want.push(b'"');
+            if want == it {
                 return Plan::Err(code, ext);
             }
         }
@@ -229,6 +240,7 @@ fn write_item(r: &mut ResponseUnit, it: &[u8]) {
             let e = own(|| mk_error(code, ext));
             r.data(e)
         }
+        Plan::Bad => r.data(&b"caf\xc3\xa9"[..]),      // a string datum with non-ASCII bytes cannot be formatted
         Plan::Raw => r.data(Character(it)),
     };
 }
